@@ -15,7 +15,7 @@ import argparse, json, os, subprocess, sys, tempfile, shutil, glob, concurrent.f
 
 VERIF = os.path.dirname(os.path.dirname(os.path.abspath(__file__)))
 REPO = os.environ.get("FX_REPO", "/repo")
-BIN = os.path.join(VERIF, "bin", "fxcheck")
+BIN = os.environ.get("FXBIN") or os.path.join(VERIF, "bin", "fxcheck")
 
 
 def run_variant(item):
